@@ -10,13 +10,37 @@ inductive Rep where
   | required | optional | repeated
   deriving DecidableEq, Repr
 
-/-- Everything an element states besides the tree shape. `rep = none`: repetition absent. -/
+/-- union TimeUnit of parquet.thrift: 1 MILLIS, 2 MICROS, 3 NANOS -/
+inductive AnnotTimeUnit where
+  | millis | micros | nanos
+  deriving DecidableEq, Repr
+
+/-- What the LogicalType union of parquet.thrift (SchemaElement field 10) can state, member by
+member: 1 STRING, 2 MAP, 3 LIST, 4 ENUM, 5 DECIMAL {1 scale, 2 precision}, 6 DATE,
+7 TIME {1 isAdjustedToUTC, 2 unit}, 8 TIMESTAMP {same}, 10 INTEGER {1 bitWidth, 2 isSigned},
+11 UNKNOWN (NullType: "always null"), 12 JSON, 13 BSON, 14 UUID, 15 FLOAT16.  The parameters are the
+REQUIRED fields of the member structs (DecimalType, TimeType, TimestampType, IntType). -/
+inductive Annotation where
+  | string | map | list | enum
+  | decimal (scale precision : Int)
+  | date
+  | time (utc : Bool) (unit : AnnotTimeUnit)
+  | timestamp (utc : Bool) (unit : AnnotTimeUnit)
+  | integer (bitWidth : Int) (signed : Bool)
+  | nullType | json | bson | uuid | float16
+  deriving DecidableEq, Repr
+
+/-- Everything an element states besides the tree shape. `rep = none`: repetition absent.
+`logical` is the CONVERTED type (SchemaElement field 6, the deprecated enum); `logicalType` is the
+annotation of the LogicalType union (field 10; `none`: no field 10, or a single member that is not
+in the list above — a newer annotation a reader may ignore). -/
 structure Info where
   name : String
   rep : Option Rep
   ptype : Option Nat
   typeLength : Int
   logical : Option Nat
+  logicalType : Option Annotation := none
   deriving DecidableEq, Repr
 
 inductive Node where
@@ -68,6 +92,16 @@ end
 def leaves : Node → List Leaf
   | .leaf _ => []
   | .group _ cs => leavesOfList cs 1 0 0
+
+mutual
+  /-- what the leaves (columns) of a subtree state, in column order -/
+  def leafInfos : Node → List Info
+    | .leaf i => [i]
+    | .group _ cs => leafInfosList cs
+  def leafInfosList : List Node → List Info
+    | [] => []
+    | c :: cs => leafInfos c ++ leafInfosList cs
+end
 
 mutual
   /-- every group below (and including) this node has at least one child -/
